@@ -70,6 +70,70 @@ def scripted(rng):
     return out
 
 
+def refusal_sweep(ctx, rng):
+    """wire level, real Session and identity provider: a refused COM_CHANGE_USER - wrong password, unknown user, no-login user,
+    unknown users whose names do not fit the results character set at every offset of the error message - ends the service:
+    the next COM_QUERY never reaches the application and is answered by nothing but ERR / close"""
+    import struct
+    import client as cl
+    import impl
+    from mysql_mimic.auth import NativePasswordAuthPlugin, NoLoginAuthPlugin, IdentityProvider, User
+
+    class IP(IdentityProvider):
+        def __init__(self):
+            self.users = {"alice": User(name="alice", auth_string=NativePasswordAuthPlugin.create_auth_string("pw"), auth_plugin="mysql_native_password"),
+                          "nologin": User(name="nologin", auth_plugin=NoLoginAuthPlugin.name)}
+
+        def get_plugins(self):
+            return [NativePasswordAuthPlugin(), NoLoginAuthPlugin()]
+
+        async def get_user(self, username):
+            return self.users.get(username)
+
+    class S(impl.Session):
+        LOG = None
+
+        async def query(self, expression, sql, attrs):
+            self.LOG.append((self.username, sql))
+            return [(42,)], ["answer"]
+
+    names = ["bob", "", "nologin", "alice"] + ["x" * k + "用户" for k in (list(range(0, 72, 3)) if ctx.quick else range(72))] + ["é" * 40, "x" * 200]
+    settings = [None, "latin1", "ascii"]
+    n = 0
+    for setting in settings:
+        for name in names:
+            env = impl.Env(own_sleep=False)
+            try:
+                log = []
+                S.LOG = log
+                srv = impl.make_server(env, S, identity_provider=IP())
+                c = impl.Conn(env, srv)
+                env.settle()
+                nonce = cl.parse_handshake_v10(cl.split_raw(c.take())[0][1])["nonce"]
+                c.feed(cl.frame(cl.handshake_response(user=b"alice", auth=cl.native_scramble(b"pw", nonce), charset=45), 1))
+                if cl.split_raw(c.take())[-1][1][:1] != b"\x00":
+                    return dict(problem="the reference login itself was refused"), n
+                if setting:
+                    c.feed(cl.frame(bytes([cl.COM_QUERY]) + f"SET character_set_results = '{setting}'".encode(), 0)); c.take()
+                resp = cl.native_scramble(b"wrong", nonce)
+                cu = bytes([cl.COM_CHANGE_USER]) + name.encode("utf8") + b"\0" + bytes([len(resp)]) + resp + b"\0" + struct.pack("<H", 45) + b"mysql_native_password\0"
+                c.feed(cl.frame(cu, 0))
+                rep = cl.split_raw(c.take())
+                n += 1
+                if rep and rep[-1][1][:1] == b"\x00":
+                    return dict(problem="a COM_CHANGE_USER with a wrong proof was accepted", user=name, results_charset=setting), n
+                del log[:]
+                if c.blocked_on() != "done":
+                    c.feed(cl.frame(bytes([cl.COM_QUERY]) + b"SELECT answer FROM t", 0))
+                rep2 = cl.split_raw(c.take())
+                if log or any(p[:1] != b"\xff" for _, p in rep2):
+                    return dict(problem="after a refused COM_CHANGE_USER the next query was served", user=name, results_charset=setting,
+                                refusal=[p[:40].hex() for _, p in rep], application_saw=repr(log), reply=[p[:12].hex() for _, p in rep2]), n
+            finally:
+                env.close()
+    return None, n
+
+
 def run(ctx: core.Ctx):
     rng = ctx.rng
     pr = core.check_proofs(ctx, "Props/C01", headers=[HEADER])
@@ -100,6 +164,10 @@ def run(ctx: core.Ctx):
         w = oracle(d)
         if w and witness is None:
             witness = dict(kind="unauthenticated-service", events=d.events[:30], **w)
+    w, nsweep = refusal_sweep(ctx, rng)
+    ctx.evals += nsweep
+    if w and witness is None:
+        witness = dict(kind="refusal-sweep", **w)
     if witness is not None:
         core.report_violation(ctx, "a connection that did not authenticate is served", witness)
     if (not pr["ok"] or disagreements) and not ctx.violations:
